@@ -51,6 +51,13 @@ func comb(rng *rand.Rand, G float64, U int64) []ipt {
 	r = append(r, ipt{x0, y0})
 	x := x0
 	pitch := int64(float64(U) * (0.5 + rng.Float64()*2.5))
+	// bundle: the teeth stand a fraction of a pixel apart and are a fraction of a pixel wide, so that several of them collapse onto the
+	// same column of pixels (back and forth over the same vertices, again and again); the last one may be bent like an L
+	bundle := rng.Intn(3) == 0
+	if bundle {
+		pitch = 1 + rng.Int63n(max64(1, U/4))
+	}
+	sameH := int64(float64(U) * (1 + rng.Float64()*(G/3)))
 	var top []ipt
 	for i := 0; i < n; i++ {
 		w := 1 + rng.Int63n(max64(1, U/2)) // thin
@@ -58,6 +65,20 @@ func comb(rng *rand.Rand, G float64, U int64) []ipt {
 			w = 1 + rng.Int63n(2*U)
 		}
 		h := int64(float64(U) * (1 + rng.Float64()*(G/3)))
+		if bundle {
+			w = 1 + rng.Int63n(max64(1, U/8))
+			if rng.Intn(2) == 0 {
+				h = sameH
+			}
+		}
+		if bundle && i == n-1 && rng.Intn(2) == 0 && h > 2*U {
+			bend := U + rng.Int63n(3*U)
+			w2 := 1 + rng.Int63n(max64(1, U/8))
+			top = append(top, ipt{x, y0 + barH}, ipt{x, y0 + barH + h}, ipt{x + w + bend, y0 + barH + h}, ipt{x + w + bend, y0 + barH + h - w2},
+				ipt{x + w, y0 + barH + h - w2}, ipt{x + w, y0 + barH})
+			x += w + bend + pitch
+			continue
+		}
 		top = append(top, ipt{x, y0 + barH}, ipt{x, y0 + barH + h}, ipt{x + w, y0 + barH + h}, ipt{x + w, y0 + barH})
 		x += w + pitch
 	}
